@@ -158,11 +158,6 @@ def reprBase (rows : List XRow) : Bool :=
   rectangular rows && residuesOk rows && distinct (rows.map (·.1)) &&
     rows.all (fun r => !r.1.isEmpty && r.1.all isPrintable)
 
-/-- the detected alphabet of a representable alignment, stated independently of the Go tables:
-nucleotide unless some residue is a protein-only letter (E F I L P Q Z) -/
-def specAlphabet (rows : List XRow) : Nat :=
-  if rows.all (fun r => r.2.all fun b => isNt b || isSpecial b) then 1 else 0
-
 def upperName (n : Name) : Name := n.map upper
 
 def isDecimal (n : Name) : Bool :=
